@@ -114,6 +114,97 @@ INFO = {
         initially_missed=False),
 }
 
+
+INFO.update({
+    'r2-C01': dict(
+        change="yanny.protect: `s.find('#') >= 0` -> `> 0` (a cell starting with '#' and free of blanks is written unquoted)",
+        needs="a string cell or array element that starts with '#' and contains no white space",
+        caught_by="strings obligations (symbolic characters include '#' in first position)", initially_missed=False),
+    'r2-C02': dict(
+        change="yanny.isenum: labels found with `re.findall(r'(\\w+)\\s*[,\\n]', body)` instead of splitting at commas",
+        needs="an enum typedef whose last label shares a line with the closing brace, and that label strictly the longest",
+        caught_by="layout enum-layout (typedef layout chosen by the solver, longest label last)", initially_missed=True,
+        strengthening="the enum typedef had one fixed layout and its longest label first; layout made a solver choice, longest label last and used in a row"),
+    'r2-C03': dict(
+        change="yanny.append: `key.upper() in self.tables()` -> `key.upper() in self`",
+        needs="an appended pair whose upper-cased name is already a key of the object (e.g. 'mjd' next to an existing 'MJD')",
+        caught_by="append-pairs op (a second appended key differs from an existing pair by letter case only)", initially_missed=True,
+        strengthening="appended keys were always fresh names; the start document now has an upper-case pair and every append-pairs step adds a case variant of it"),
+    'r2-C04': dict(
+        change="chunks.assign (second loop): `raChunk > nRa-1` -> `raChunk > nRa` (index nRa no longer wraps to cell 0)",
+        needs="a second-list point just below RA 360 next to a first-list point just above 0 in a row that covers the full circle",
+        caught_by="chunk hash obligations (the real chunks on symbolic right ascensions)", initially_missed=True,
+        strengthening="the spatial hash was stubbed out and not claimed; box-completeness obligations on the real chunks class were built"),
+    'r2-C05': dict(
+        change="groups.__init__: neighbour scan `range(nTargets)` -> `range(i, nTargets)`",
+        needs="a chain of >= 5 points in one chunk in a particular input order",
+        caught_by="groups n=5 (symbolic distance matrix)", initially_missed=False),
+    'r2-C06': dict(
+        change="sdss_objid: field range check `.any()` -> `.all()`",
+        needs="an array call mixing in-range and out-of-range field values",
+        caught_by="objid array n=2 (out-of-range field must be rejected)", initially_missed=False),
+    'r2-C07': dict(
+        change="sdss_flagval: per-label uint64 accumulation -> `np.uint64(np.sum(np.uint64(2)**np.array(bits)))` (float64 sum)",
+        needs="two or more labels whose bits span 53 or more positions",
+        caught_by="flagval labels=2 with one label at bit 63", initially_missed=True,
+        strengthening="the engine computed uint64 ** int64-array exactly; NumPy's promotion to float64 is now modelled (loader rewrite 9b, core.ZA, binary64 terms)"),
+    'r2-C08': dict(
+        change="bsplvn: Cox-de Boor denominator indices swapped (`deltap[:, j-l] + deltam[:, l]`)",
+        needs="order >= 3 and unevenly spaced knots",
+        caught_by="basis nord=3 symbolic knots (sum to one / value identity)", initially_missed=False),
+    'r2-C09': dict(
+        change="bspline.maskpoints: `self.mask.nonzero()[0][test]` -> `test.nonzero()[0]`",
+        needs="a second fit failure on the same bspline object after breakpoints were already masked, at higher x",
+        caught_by="refit two gaps (sequence of fits on one object)", initially_missed=True,
+        strengthening="ill-posed cases used a fresh object each and only asked for 'some breakpoint masked'; the refit obligations open two gaps in sequence and require the mask to address every unsupported coefficient"),
+    'r2-C10': dict(
+        change="iterfit: `inmask = maskwork` moved out of the rejection loop (rejected points can come back)",
+        needs="maxiter >= 1 and a point rejected only because an outlier dragged the first fit",
+        caught_by="iterfit with rejection (mask equals that of the documented fit-reject-refit procedure)", initially_missed=False),
+    'r2-C11': dict(
+        change="combine1fiber: per-exposure `inbetween` window uses the range of the whole stack",
+        needs="a stack of exposures with different coverage and an isolated zero-weight pixel where only one exposure has data",
+        caught_by="combine1fiber stack obligations", initially_missed=True,
+        strengthening="only single spectra were modelled (the variance smoothing needs 101 pixels); stacks of two exposures with the smoothing as an arbitrary positive value were added"),
+    'r2-C12': dict(
+        change="set_use_caps: duplicate test on a snapshot of use_caps, bit removed by subtraction",
+        needs="the same cap selected three or more times",
+        caught_by="set_use_caps ncaps=3 (symbolic caps, every duplicate pattern)", initially_missed=False),
+    'r2-C13': dict(
+        change="TraceSet.has_jump: `self.xjumplo is not None` -> `bool(self.xjumplo)`",
+        needs="a jump that starts at exactly 0",
+        caught_by="TraceSet jump variant 2 (xjumplo = 0)", initially_missed=True,
+        strengthening="one concrete jump placement (2..4) was used; variants starting at 0 and ending at 0 added"),
+    'r2-C14': dict(
+        change="median (2-D, width): column edge bound uses shape[0] instead of shape[1]",
+        needs="a non-square 2-D array",
+        caught_by="median2d 3x5 / 5x3", initially_missed=True,
+        strengthening="the quick tier had the square 3x3 case only (3x4, 4x3 in the thorough tier); 3x5 and 5x3 added to the quick tier"),
+    'r2-C15': dict(
+        change="computechi2.covar: singular-value guard `ww > 0` -> `ww > eps`",
+        needs="a full-rank system whose normal matrix has singular values below 2.2e-16 (small-scale data)",
+        caught_by="computechi2 2 parameters (svd contract stub, symbolic singular values)", initially_missed=True,
+        strengthening="computechi2 was not claimed (LAPACK svd); a verified svd contract stub and obligations for 2-parameter systems were built"),
+    'r2-C16': dict(
+        change="spec_append: first block written at column `maxpix-npix1` instead of `nadd1`",
+        needs="an appended block wider than the accumulated one",
+        caught_by="spec_append (1,2)+(1,2) symbolic widths/shift", initially_missed=False),
+    'r2-C17': dict(
+        change="djs_maskinterp1 (xval, const): `ynew[ii[igood[0]]]` -> `ynew[igood[0]]`",
+        needs="xval not ascending, const=True, masked samples at the low-x end",
+        caught_by="maskinterp 1-D with symbolic x (any order)", initially_missed=False),
+    'r2-C19': dict(
+        change="vactoair: array branch writes into a buffer of the input's dtype",
+        needs="an integer-typed wavelength array with a value >= 2000 A",
+        caught_by="air/vacuum integer array obligations", initially_missed=True,
+        strengthening="array obligations used real-valued arrays only; integer-typed arrays added"),
+    'r2-C20': dict(
+        change="template_input: restore test `orig_run[r] is None` -> `not orig_run[r]`",
+        needs="RUN2D or RUN1D present but empty on entry",
+        caught_by="fault schedule with three-valued initial state (absent / set / empty)", initially_missed=True,
+        strengthening="initial states were absent / set; 'set to the empty string' added"),
+})
+
 RAN = ["in the scratch worktree: /venv/bin/python -m pytest -q -p no:cacheprovider (with the change)",
        "in the scratch worktree: /venv/bin/python _seed/demo.py with the change and after `git apply -R _seed/patch.diff`",
        "git -C /repo apply patch.diff; cd /verif && ./check <PID> --tier quick; git -C /repo checkout -- .",
@@ -128,7 +219,9 @@ def main():
             continue
         m = json.load(open(p))
         m.update({'breaks_property': m.get('property'), 'change': info['change'], 'needs_to_manifest': info['needs'],
-                  'origin': 'independent sub-agent given only the property text and a scratch worktree of /repo',
+                  'origin': ('independent sub-agent given only the property text and a scratch worktree of /repo' if not name.startswith('r2-') else
+                             'second round: independent sub-agent given the property text, a scratch worktree of /repo and one sentence naming '
+                             'which clause / function of the property to change, so that it differs from the first round'),
                   'ran': RAN, 'caught_by': info['caught_by'], 'initially_missed': info['initially_missed']})
         if info.get('strengthening'):
             m['strengthening'] = info['strengthening']
